@@ -91,11 +91,13 @@ Fixpoint seq_concat {A} (l : list (res (list A))) : res (list A) :=
   | r :: l' => bind r (fun a => bind (seq_concat l') (fun b => Ok (a ++ b)))
   end.
 
-(* Model switches for the two proposed repairs (/verif/fixes/proposed_fix_C06_*.diff).  The code as it is = nofix.
+(* Model switches for two repairs that have landed in /repo (D73 = D31, D77 = overlap).  The code as it is = asis;
+   nofix is the code before them (kept for the before-fix notes and the revert tests).
      fix_D31     : a named level that the circuit lacks yields no node instead of KeyError
      fix_overlap : run() reads the backend columns of a wildcard key without popping them *)
 Record fixes := { fix_D31 : bool; fix_overlap : bool }.
 Definition nofix : fixes := {| fix_D31 := false; fix_overlap := false |}.
+Definition asis : fixes := {| fix_D31 := true; fix_overlap := true |}.
 
 Fixpoint get_nodes_gen (F : fixes) (t : tree) (v : varid) (pat : list string) {struct t} : res (list path) :=
   match t with
@@ -132,7 +134,7 @@ Fixpoint get_nodes_gen (F : fixes) (t : tree) (v : varid) (pat : list string) {s
                end
       end
   end.
-Definition get_nodes := get_nodes_gen nofix.
+Definition get_nodes := get_nodes_gen asis.
 
 (* ------------------------------------------------------------------------------------------ Spec *)
 Fixpoint leaves (t : tree) : list (path * node) :=
@@ -184,7 +186,7 @@ Fixpoint chk (km kl ks : bool) (t : tree) (pat : list string) : bool :=
       end
   end.
 Definition resolvable_gen (F : fixes) := chk (fix_D31 F) false false.
-Definition resolvable := chk false false false.
+Definition resolvable := chk true false false.
 Definition names_resolve := chk false true true.
 Definition not_too_long := chk true false true.
 Definition not_too_short := chk true true false.
@@ -293,7 +295,7 @@ Fixpoint positions_dict_gen (F : fixes) (t : tree) (reqs : list request) : res (
             | _ => (key, Multi (map (fun n => var_key n o x) nodes)) :: l
             end)) end)
   end.
-Definition positions_dict := positions_dict_gen nofix.
+Definition positions_dict := positions_dict_gen asis.
 
 (* dict.update: a key that is already present keeps its place *)
 Definition upd_keys (acc new : list path) : list path := add_new acc new.
@@ -313,7 +315,7 @@ Fixpoint positions_list_gen (F : fixes) (t : tree) (L : layout) (old : bool) (re
         match nodes with [] => Err PyRatesException | _ =>
         positions_list_gen F t L old rest (upd_keys acc (map (fun nd => var_key nd o' x') nodes)) end)
   end.
-Definition positions_list := positions_list_gen nofix.
+Definition positions_list := positions_list_gen asis.
 
 Definition multi_vars (es : list (string * entry)) : list path :=
   flat_map (fun e => match snd e with Multi vs => vs | Single _ => [] end) es.
@@ -373,7 +375,7 @@ Definition run_columns_gen (F : fixes) (t : tree) (L : layout) (f : form) (reqs 
       bind (positions_list_gen F t L (match f with ListFormOld => true | _ => false end) reqs []) (fun vs =>
         finish L false (map (fun v => ([join "/" v], v, true)) vs))
   end.
-Definition run_columns := run_columns_gen nofix.
+Definition run_columns := run_columns_gen asis.
 
 (* Spec: one column per unit of every variable denoted by each request, in request order, in unit order.
    U gives the number of units of the population nodes (a node that is not listed is a scalar node).
@@ -422,7 +424,7 @@ Definition no_pop_in_wildcard (t : tree) (U : list (path * nat)) (reqs : list re
   forallb (fun v => Nat.eqb (units U v) 1) (wild_vars t reqs).
 Definition reqs_resolvable_gen (F : fixes) (t : tree) (reqs : list request) : bool :=
   forallb (fun r => resolvable_gen F t (fst (snd r))) reqs.
-Definition reqs_resolvable := reqs_resolvable_gen nofix.
+Definition reqs_resolvable := reqs_resolvable_gen asis.
 (* the layout knows the requested variables as state variables (a constant such as op/k is in no state vector:
    KeyError in ComputeGraph.run) with as many unit indices as the node has units *)
 Definition covers (L : layout) (U : list (path * nat)) (vs : list path) : bool :=
